@@ -89,6 +89,8 @@ def tree_counts(t, acc):
         acc["C"].add(d[1])
     elif d[0] == "B":
         acc["L"].add(d[1])
+    elif d[0] == "G":
+        acc["M"].add(d[2])
     elif d[0] == "R":
         acc["K"].update(counts_in(d[1], "CConstant"))
         acc["M"].update(counts_in(d[1], "CMesh"))
